@@ -123,9 +123,9 @@ def run_real(scenarios):
             obs = [f.result() for f in futs]
         # one more try, two at a time, for the runs a busy machine spoiled
         again = [i for i, o in enumerate(obs) if not o.get("crashed") and inconclusive(o)]
-        if again:
+        if 0 < len(again) <= 4:     # (many spoiled runs = something systematic: trying again only costs time)
             with concurrent.futures.ThreadPoolExecutor(max_workers=2) as ex:
-                futs = [(i, ex.submit(run_one, scenarios[i], tmpdir, 1000 + i)) for i in again[:8]]
+                futs = [(i, ex.submit(run_one, scenarios[i], tmpdir, 1000 + i)) for i in again]
                 for i, f in futs:
                     o = f.result()
                     if not o.get("crashed"):
@@ -335,7 +335,10 @@ def judge(o):
 
     def bad(claim, what):
         out.append(({"claim": claim, "survives_and_prints": surv_print}, "%s/%s: %s" % (sc["program"], sc["position"], what)))
-    if o.get("crashed") or inconclusive(o) or o.get("no_hook"):
+    # A run whose forcing did not work out (`notes`) still shows what the sandbox REALLY looked like after a
+    # timeout under some schedule - every schedule is in the property's scope - so it is judged like any other;
+    # only a run that produced no observation at all says nothing.
+    if o.get("crashed") or o.get("inconclusive") or o.get("no_hook"):
         return out
     if o.get("stuck"):
         k = o["stuck"]
@@ -379,7 +382,8 @@ def search(rng, tier, broken, corr):
                     "sys.stdout before the next run and at the end, the next run's record == what it printed, x == 1, "
                     "no exception, fresh context id; 'returns within a bounded delay' = the grader is never SEEN (0.1 s samples) "
                     "blocked inside pedal while the student thread executes student code for more than limit + 2.5 s; runs "
-                    "spoiled by a busy machine (expired cap, starved student thread, slow process) are inconclusive and skipped",
+                    "whose forcing failed on a busy machine (expired cap, starved student thread) are not compared with the model but "
+                    "still judged (what they show did happen); a process that did not finish is no observation",
             "evaluations": 0, "distinct_nontrivial": 0, "samples": []}
     obs = list(getattr(corr, "observations", []) or [])
     if not obs:
@@ -390,9 +394,11 @@ def search(rng, tier, broken, corr):
         if o.get("crashed"):
             skipped["scenario-process-crashed"] = skipped.get("scenario-process-crashed", 0) + 1
             continue
-        if inconclusive(o):
-            skipped["inconclusive"] = skipped.get("inconclusive", 0) + 1
+        if o.get("inconclusive") or o.get("no_hook"):
+            skipped["no-observation"] = skipped.get("no-observation", 0) + 1
             continue
+        if o.get("notes"):
+            skipped["judged-although-forcing-failed"] = skipped.get("judged-although-forcing-failed", 0) + 1
         info["evaluations"] += 1
         for sig, what in judge(o):
             key = json.dumps(sig, sort_keys=True)
@@ -402,7 +408,7 @@ def search(rng, tier, broken, corr):
             failures.append(Failure(sig, what, {"scenario": o["scenario"], "observation": o}))
     info["distinct_nontrivial"] = len({json.dumps(o["scenario"], sort_keys=True) for o in obs
                                        if o["scenario"]["position"] != "free" and not o.get("crashed")
-                                       and not inconclusive(o)})
+                                       and not o.get("inconclusive") and not o.get("no_hook")})
     info["skipped"] = skipped
     return failures, info
 
